@@ -874,7 +874,7 @@ func DiskFiles() []File {
 	for _, p := range simfs.Files() {
 		d, _ := simfs.Content(p)
 		if !strings.HasPrefix(p, Root+"/") {
-			if strings.HasPrefix(p, "/ws2/") || strings.HasPrefix(p, "/outside/") {
+			if strings.HasPrefix(p, "/ws2/") || strings.HasPrefix(p, "/outside/") || strings.HasPrefix(p, "/second/") {
 				out = append(out, File{Path: p, Data: d}) // a second workspace root: absolute path
 			}
 			continue
